@@ -197,13 +197,37 @@ def run_case(g, idx, res, workdir, with_design):
     def bad(mech, msg):
         out.append({"mechanism": mech, "message": msg, "case": case})
 
+    # the constrained bi-rectangle API takes a single outline either bare ([[x, y], ...]) or as a one-element list of outlines: the
+    # same configuration, so the same file; half of the eligible cases go through the bare form
+    api_cfg = cfg
+    bare = []
+    if method == "BIRECTANGLECONSTRAINED" and g.random() < 0.6:
+        geo_b = dict(cfg["geometric_constraints"])
+        for key in ("property_boundary", "no_go_boundaries"):
+            if len(geo_b[key]) == 1 and g.random() < 0.75:
+                geo_b[key] = geo_b[key][0]
+                bare.append(key)
+        if bare:
+            api_cfg = dict(cfg, geometric_constraints=geo_b)
+    case["api_bare_outlines"] = bare
+    nominal = float(g.uniform(40, 200))
     with warnings.catch_warnings():
         warnings.simplefilter("ignore")
-        m1 = GC.build_manager(cfg, loads=loads, nominal_height=float(g.uniform(40, 200)))
+        m1 = GC.build_manager(api_cfg, loads=loads, nominal_height=nominal)
         f1 = Path(workdir) / f"in_{idx}_1.json"
         f2 = Path(workdir) / f"in_{idx}_2.json"
         m1.write_input_file(f1)
         text1 = f1.read_text()
+        if bare:
+            res["bare_outline_cases"] = res.get("bare_outline_cases", 0) + 1
+            f0 = Path(workdir) / f"in_{idx}_0.json"
+            GC.build_manager(cfg, loads=loads, nominal_height=nominal).write_input_file(f0)
+            text0 = f0.read_text()
+            f0.unlink()
+            if text0 != text1:
+                d0, d1_ = json.loads(text0)["geometric_constraints"], json.loads(text1)["geometric_constraints"]
+                ks = [k for k in d0 if d0[k] != d1_.get(k)]
+                bad("bare-outline-form-written-differently:" + (ks[0] if ks else "other"), f"{method}/{pipe}: {bare} given as bare outlines; differing keys {ks}")
         inst = json.loads(text1)
         errs = independent_validate(json.loads(text1))
         sink = io.StringIO()
@@ -326,7 +350,7 @@ def check(tier, seed):
     rep = Report(PROP)
     rep.rule = (
         "case = configuration accepted by the API: 6 design methods (RowWise with and without perimeter ratio) x 4 pipe types in rotation, five "
-        "fluids with concentrations, optional max_boreholes / continue flag, non-round rotations, tiny and large values, generated 8760-h loads; "
+        "fluids with concentrations, single outlines of the constrained bi-rectangle given bare or as one-element lists, optional max_boreholes / continue flag, non-round rotations, tiny and large values, generated 8760-h loads; "
         "write -> independent per-section schema validation + tool validator -> CLI loader (instance captured) -> state of the loaded manager compared "
         "with the API-built one (all media, pipe, borehole, simulation parameters incl. cap and continue flag, geometry, design) -> write again -> byte comparison; "
         "the first case(s) of every shard also run both designs and compare digests. non-trivial = every case; distinct by inputs."
@@ -341,6 +365,7 @@ def check(tier, seed):
         for k2 in ("validated", "round_trips", "design_pairs"):
             rep.count(k2, r[k2])
         rep.count("api_vs_loaded_configurations_compared", r.get("configs_compared", 0))
+        rep.count("bare_outline_api_form_cases", r.get("bare_outline_cases", 0))
         for k2, v2 in r["hits"].items():
             hits[k2] = hits.get(k2, 0) + v2
         for k2, v2 in r["methods"].items():
